@@ -83,8 +83,13 @@ def gen_cases(rng, tier):
             labels = [rng.choice(used) for _ in range(ns)]
             preds = [rng.choice(used) if rng.random() < 0.6 else lab for lab in labels]
             wkind = rng.choice(["none", "none", "int", "dyadic", "dyadic", "double"])
+            if k % 22 == 8 and ns >= 2:
+                wkind = "bigint"
             weights = None
-            if wkind == "int":
+            if wkind == "bigint":
+                # integer weights whose cell totals pass 2^53 with low bits set: the totals are exact in int64, not in float64
+                weights = [enc(2 ** 53 + 2 * rng.randint(0, 2 ** 30) + 1) for _ in range(ns)]
+            elif wkind == "int":
                 weights = [enc(rng.randint(1, 9)) for _ in range(ns)]
             elif wkind == "dyadic":
                 weights = [enc(Fraction(rng.randint(1, 40), 4)) for _ in range(ns)]
@@ -145,6 +150,8 @@ def _arr(res):
     import numpy as np
 
     a = np.asarray(res)
+    if a.dtype.kind in "iu":     # integer results are reported exactly (totals beyond 2^53 are not doubles)
+        return {"shape": list(a.shape), "vals": [enc(int(v)) for v in a.reshape(-1)]}
     return {"shape": list(a.shape), "vals": [enc(float(v)) for v in a.reshape(-1)]}
 
 
@@ -182,7 +189,7 @@ def run_impl(case):
         preds = [_name(style, c) for c in case["preds"]]
         weights = None
         if case["weights"] is not None:
-            weights = [int(F(w)) if case["wkind"] == "int" else fl(w) for w in case["weights"]]
+            weights = [int(F(w)) if case["wkind"] in ("int", "bigint") else fl(w) for w in case["weights"]]
         classes = None if case["classes"] is None else [_name(style, c) for c in case["classes"]]
         cm = ConfusionMatrix(labels, preds, weights=weights, classes=classes)
         out["main"] = _collect(cm, style)
@@ -409,7 +416,8 @@ def _check_cm(case, col, tag, want_classes, want_mats, lead, fails, exact):
         for k, (M, W) in enumerate(zip(mats, want_mats)):
             for i in range(N):
                 for j in range(N):
-                    if not _close(M[i][j], W[i][j], exact):
+                    # an integer matrix holds its totals exactly, whatever their size
+                    if not _close(M[i][j], W[i][j], exact or col.get("dtype") in ("i", "u")):
                         bad("entry", f"matrix{[k] if lead else ''}[{i}][{j}] = {M[i][j]}, total weight of (label {want_classes[i]}, "
                             f"prediction {want_classes[j]}) is {W[i][j]}")
                         return
